@@ -173,9 +173,14 @@ def _apply_deco(root, op):
         resolve(root, op[1]).annotations.clear()
     elif k == "encode":
         t = trees_of(root)[op[1]]
-        t.encode_bipartitions()
-        if op[2]:
-            t.bipartition_edge_map
+        if len(op) > 3 and op[3]:
+            # wave 7: bipartitions left open for modification (is_mutable True; they cannot be hashed: both edge
+            # maps of the tree are unavailable, by an assertion of the library)
+            t.encode_bipartitions(is_bipartitions_mutable=True)
+        else:
+            t.encode_bipartitions()     # the default: frozen bipartitions
+            if op[2]:
+                t.bipartition_edge_map
     elif k == "label":
         resolve(root, op[1]).label = op[2]
     elif k == "subset":
@@ -336,6 +341,20 @@ def _apply_mut(root, op):
         nd._child_nodes.reverse()
     elif k == "encode":
         trees_of(root)[op[1]].encode_bipartitions()
+    # wave 7: in-place edits of bipartition data that do not go through a re-encoding
+    elif k == "bip_split":
+        resolve(root, ["edge", op[1], op[2]]).split_bitmask = op[3]
+    elif k == "bip_leafset":
+        resolve(root, ["edge", op[1], op[2]]).leafset_bitmask = op[3]
+    elif k == "bip_unfreeze":
+        b = resolve(root, ["edge", op[1], op[2]]).bipartition
+        b.is_mutable = True
+        b.compile_split_bitmask(leafset_bitmask=op[3], tree_leafset_bitmask=op[3] | 0b111, is_mutable=True)
+    elif k == "enc_inplace":
+        enc = trees_of(root)[op[1]].bipartition_encoding
+        if enc:
+            enc.reverse()
+            enc.pop()
     elif k == "rooting":
         trees_of(root)[op[1]].is_rooted = op[2]
     elif k == "retaxon":
